@@ -68,13 +68,21 @@ def body_html(blocks, vmerge: bool = False) -> str:
                         and not hcovered(rows[i], j) and not hcovered(rows[i - 1], j)
                         and not (merge and j + 1 < len(rows[i - 1]) and not rows[i - 1][j + 1]))
 
+            def block_at(j):
+                # (HTML / MHTML only, two-row tables) a cell of the first row with an empty right neighbour and two empty
+                # cells below them is ONE cell spanning two columns and two rows
+                return (vmerge and merge and len(rows) == 2 and j >= 0 and j + 1 < len(rows[0]) and j + 1 < len(rows[1])
+                        and bool(rows[0][j]) and not rows[0][j + 1] and not rows[1][j] and not rows[1][j + 1])
+
             def cells(i, tag):
                 row = rows[i]
                 out_ = []
                 for j, cell in enumerate(row):
-                    if hcovered(row, j) or vcovered(i, j):
+                    if hcovered(row, j) or vcovered(i, j) or (i == 1 and (block_at(j) or block_at(j - 1))):
                         continue
                     span = ' colspan="2"' if merge and cell and j + 1 < len(row) and not row[j + 1] and not vcovered(i, j + 1) else ""
+                    if span and i == 0 and block_at(j):
+                        span += ' rowspan="2"'
                     if not span and i + 1 < len(rows) and j < len(rows[i + 1]) and vcovered(i + 1, j):
                         span = ' rowspan="2"'
                     out_.append(f"<{tag}{span}>{body_html(cell, vmerge)}</{tag}>")
